@@ -88,6 +88,15 @@ Section WithRe.
     intros classes d H. apply pick_category_all_empty. intros c Hc.
     apply matching_in in Hc. destruct Hc as (r & Hin & Hm). exact (H c r Hin Hm).
   Qed.
+  Lemma nothing_matches_uncategorized : forall classes e,
+    (forall c r, In (c, r) classes -> rule_match re r (c_data e) = false) ->
+    dget K_category (c_data (categorize_one re classes e)) = Some (VList uncategorized).
+  Proof.
+    intros classes e H. unfold categorize_one, set_cdata. cbn [c_data]. rewrite dget_dset_same.
+    rewrite pick_uncategorized; [reflexivity|].
+    intros c r Hin Hm. rewrite (H c r Hin) in Hm. discriminate.
+  Qed.
+
   (* event-list level: what categorize / tag write at position i *)
   Lemma categorize_writes : forall evs classes i e,
     nth_error evs i = Some e ->
